@@ -189,3 +189,26 @@ Definition xserver_case := (N * N * N)%type.
 Definition xserver_case_ok (c : xserver_case) : bool :=
   match c with (d, u, got) => f_id (downstream_reply (server_stream_id (mkFrame d 7)) (mkFrame u 9)) =? got end.
 Definition xserver_mismatches (l : list xserver_case) : list nat := xmismatches_from xserver_case_ok 0 l.
+
+(* ---- several connections in one history (they share only the per-request buffer pool of the implementation,
+   which the model has no notion of: connections are independent) ------------------------------------------- *)
+Fixpoint upd_nth {A} (l : list A) (i : nat) (v : A) : list A :=
+  match l, i with
+  | [], _ => []
+  | _ :: l', O => v :: l'
+  | y :: l', S i' => y :: upd_nth l' i' v
+  end.
+
+Fixpoint xmulti_check (g : genk) (xs : list xconn) (h : list (nat * xop * xobs)) : bool :=
+  match h with
+  | [] => true
+  | (i, o, ob) :: h' =>
+    match nth_error xs i with
+    | Some x => let (x', out) := xstep g x o in xobs_eqb (xobserve x' out) ob && xmulti_check g (upd_nth xs i x') h'
+    | None => false
+    end
+  end.
+
+Definition xmulti_case := (genk * list N * list (nat * xop * xobs))%type.   (* generator, initial counter per connection, history *)
+Definition xmulti_case_ok (c : xmulti_case) : bool := match c with (g, c0s, h) => xmulti_check g (map xinit c0s) h end.
+Definition xmulti_mismatches (l : list xmulti_case) : list nat := xmismatches_from xmulti_case_ok 0 l.
